@@ -147,6 +147,18 @@ Example C05_witness :
   step_ok ex_env [(1, 2)] ex_st (epoch_end ex_env ex_st (1, 2)) = true.
 Proof. vm_compute. repeat split; reflexivity. Qed.
 
+(* an AVS whose (resolvable) asset list is EMPTY: the rows stay, with total/self/active 0, and the AVS value becomes 0 —
+   neither wiped nor left at the stale figures *)
+Example C05_witness_empty_asset_list :
+  let e := mkEnv (e_pools ex_env) (e_assets ex_env) [mkAvs 2 1 1 0 [] true []] in
+  epoch_end e ex_st (1, 2) =
+  mkSt [mkRow 1 0 0 0 0; mkRow 1 1 0 0 0; mkRow 2 0 0 0 0; mkRow 3 1 0 0 0; mkRow 4 0 4 4 4; mkRow 5 1 5 5 5; mkRow 77 0 1 2 3]
+       [(1, 0); (2, 0); (4, 4); (5, 5); (77, 3)] /\
+  step_ok e [(1, 2)] ex_st (epoch_end e ex_st (1, 2)) = true /\
+  step_ok e [(1, 2)] ex_st ex_st = false /\
+  step_ok e [(1, 2)] ex_st (mkSt (filter (fun r => negb (r_avs r =? 2)) (s_rows ex_st)) (del_val (s_avsval ex_st) 2)) = false.
+Proof. vm_compute. repeat split; reflexivity. Qed.
+
 Example C05_witness_hour : s_rows (epoch_end ex_env ex_st (2, 5)) =
   [mkRow 1 0 0 0 0; mkRow 1 1 0 0 0; mkRow 2 0 9 9 9; mkRow 3 1 (7 * P) (7 * P) (7 * P); mkRow 4 0 4 4 4; mkRow 5 1 5 5 5; mkRow 77 0 1 2 3].
 Proof. vm_compute. reflexivity. Qed.
